@@ -44,12 +44,12 @@ ASSUMPTIONS = [
 MIN_EVENTS = {
     'quick': {'oracle_evals': 400000, 'instances': 70000, 'layout_checks': 70000, 'from_bytes_checks': 70000,
               'rebuild_checks': 55000, 'pollution_steps': 3000, 'ertm_fields': 5000, 'rfcomm_frames': 2000,
-              'sdp_elements': 3000, 'sdp_size_boundaries': 16, 'uuid_ops': 1500, 'inst_l2cap-sig': 3000, 'inst_att': 5000,
+              'sdp_elements': 3000, 'sdp_size_boundaries': 16, 'uuid_ops': 1000, 'inst_l2cap-sig': 3000, 'inst_att': 5000,
               'inst_smp': 2000, 'inst_sdp-pdu': 1000, 'inst_avdtp': 6000, 'inst_avrcp-cmd': 3000, 'inst_avrcp-rsp': 3000,
               'inst_avrcp-evt': 1000, 'inst_avrcp-item': 500},
     'thorough': {'oracle_evals': 3000000, 'instances': 500000, 'layout_checks': 500000, 'from_bytes_checks': 400000,
                  'rebuild_checks': 300000, 'pollution_steps': 50000, 'ertm_fields': 33000, 'rfcomm_frames': 30000,
-                 'sdp_elements': 50000, 'sdp_size_boundaries': 100, 'uuid_ops': 50000, 'inst_l2cap-sig': 60000, 'inst_att': 100000,
+                 'sdp_elements': 50000, 'sdp_size_boundaries': 100, 'uuid_ops': 15000, 'inst_l2cap-sig': 60000, 'inst_att': 100000,
                  'inst_smp': 40000, 'inst_sdp-pdu': 20000, 'inst_avdtp': 120000, 'inst_avrcp-cmd': 60000, 'inst_avrcp-rsp': 60000,
                  'inst_avrcp-evt': 20000, 'inst_avrcp-item': 10000},
 }
